@@ -1,7 +1,8 @@
 UNITS = {"c02node": dict(pkg="./pkg/controller/multi-ip/node", tags="default_build", shrinktime="40s")}
 
 # candidate findings reported to the lead; until they are entered into known_findings.json
-# (or repaired) their guards are switched on through this variable
+# (or repaired) their guards are switched on through this variable (see c08Known in
+# zz_verif_c02_engine_test.go). Remove an id here once it is listed or fixed.
 _PENDING = {"VERIF_PENDING_KNOWN": "C08-double-fault-orphan,C08-idle-eni-kept,C08-greedy-demand-oscillation,C08-eflo-partial-key-collision,C08-negative-slot-count,C08-sync-merge-nil-map,C08-sync-drops-detached-eni,C08-lost-write-no-resync,C08-rollback-record-lacks-mode,C08-rdma-idle-oscillation,C08-dual-stack-imbalance,C02-v4-not-on-v6-eni,C02-rollback-unbinds-existing-v4"}
 
 _W = ["DoubleFaultOrphan", "IdleENIKept", "GreedyDemand", "RDMAIdle", "DualStackImbalance", "LostWrite", "RollbackRecordLacksMode",
@@ -10,12 +11,29 @@ _W = ["DoubleFaultOrphan", "IdleENIKept", "GreedyDemand", "RDMAIdle", "DualStack
 PROPS = {
     "C08": dict(
         level="fault_enumeration",
-        technique="todo",
-        rule="todo",
-        assumptions=[],
-        level_text="todo",
-        level_note="todo",
-        tests=[dict(unit="c02node", test="TestVerifC08Loop", quick=2400, thorough=60000, env=_PENDING)] +
+        technique="model-based stateful property testing (rapid) of the real ReconcileNode in a closed loop over a fake API server and a controller-level cloud simulator with generated fault plans "
+                  "(before-effect / after-effect / partial, real error codes, status-update conflicts and failures); call-time quota monitors against a knowledge ledger, per-pass 'told but forgotten' check, "
+                  "bounded-step convergence, record == cloud and no-orphan at the fixed point of a healthy settle phase",
+        rule="drawn node configuration (stack, adapters 2..6(8), per-adapter limits 1..20, trunk/rdma/secondary flavor as the daemon publishes it, pool min<=max, 1..3 vSwitches with free counts, tag filter, attach/detach latency, EFLO), "
+             "0..3 consistent pre-existing interfaces, then 1..22(40) actions out of pod create/delete/exit/cniAdd/reportDeleted, reconcile, fullSync, burst, cloudFault, apiFault and fault episodes (faults armed right before demand arrives); "
+             "non-trivial = a monitor was evaluated at a quota/batch boundary, or a fault hit between create and InUse (attach, wait, create-after-effect), or a partial assign happened; distinct = distinct scenario hash",
+        assumptions=[
+            "cloud simulated at the pkg/controller.Interface level (zz_verif/cloudctl): ECS assign calls answer (nil, err) on any error, the EFLO assign call may answer the name of a half-created address with an error, "
+            "Detach of a missing interface and UnAssign of missing addresses succeed, Delete of a missing interface fails on ECS, DescribeNetworkInterfaces ANDs its filters (a detached interface does not match an instance-id filter), "
+            "the ECS create answer carries no traffic mode, addresses are never reused; idempotency tokens are below this interface (a create that took effect but timed out leaves an interface the controller was never told about: excluded from the orphan check)",
+            "quota monitors judge a request against what the controller has been TOLD (Describe answers, successful Create/Assign answers, minus what it released), not against cloud ground truth; a restarted controller knows the persisted record",
+            "convergence clause asserted only with spare capacity: every vSwitch option of the zone has >= 200 free addresses, the cloud admits as many interfaces as the node declares and no interface invisible to the controller uses up the quota; "
+            "'served' excludes nothing in this mode (no drift); idle is counted as adjustPool counts it; idle primaries of interfaces that must stay (in-use siblings, trunk, rdma) are exempt from the upper bound; "
+            "a fixed point = three consecutive reconciles without mutating cloud request and without change of the record's interfaces/addresses/bindings (sync timestamps and error conditions ignored); a pass may still report 'no capacity'",
+            "rollback clause: per pass, everything the controller was told and did not release is in the record it persisted; at the fixed point record == cloud for interfaces attached to the instance and their address sets "
+            "(interfaces recorded as Deleting only need to stay recorded), and no interface answered by a Create call is left unattached and unrecorded",
+            "hard-coded waits in pool.go scaled by a line-preserving source transform; LastReconcileTime guard reset, gcPeriod 0, backoff table overridden; cached vSwitch blocks are expired before the settle phase",
+        ],
+        level_text="fault placements over the cloud-call and status-write sequence of each history are sampled by the generator (per call kind: error before effect, after effect, partial result; per error code), not exhaustively enumerated; "
+                   "on every explored history the monitors, the per-pass rollback check and, after a forced full sync plus healthy rounds, convergence / band / record == cloud / no orphan held outside the listed findings",
+        level_note="11 candidate defects of the pool balancer, the sync merge and the rollback path are guarded as listed/pending findings, each with a deterministic witness; 7 of them are repaired by a 60-line patch on which the check passes with those guards off. "
+                   "Liveness is bounded-step (40 rounds) under a harness-driven schedule; EFLO is simulated at the same interface with its IPName semantics",
+        tests=[dict(unit="c02node", test="TestVerifC08Loop", quick=8000, thorough=150000, timeout_quick=900, env=_PENDING)] +
               [dict(unit="c02node", test="TestVerifC08Known" + w, quick=1, thorough=1, shards=1, env=_PENDING) for w in _W],
     ),
 }
